@@ -268,7 +268,9 @@ def _inline_calls(view, tree, policy, stack, depth, log):
             l["pat"] = _rename_tree(view, l.pop("_pat_src"), suffix, subst)
         log.append(cb["def"])
         blk = {"k": "Block", "sp": call.get("sp"), "safety": "safe", "stmts": lets, "e": body, "ty": call.get("ty"), "inlined": cb["def"]}
-        _inline_calls(view, blk["e"], policy, stack + [cb["def"]], depth + 1, log)
+        # a closure handed to the helper as an argument is now a `let` of this block: its calls inside the body are inlined as well
+        has_clo_arg = any(isinstance(strip(l.get("init")), dict) and strip(l["init"]).get("k") == "Closure" for l in lets)
+        _inline_calls(view, blk if has_clo_arg else blk["e"], policy, stack + [cb["def"]], depth + 1, log)
         return blk
 
     visit(tree)
